@@ -674,6 +674,374 @@ def neigh_adsr(c):
 
 
 # ----------------------------------------------------------------------------------------------
+# TableLookup, sinusoid, karplus_strong
+# ----------------------------------------------------------------------------------------------
+C0 = 1 / (2 * math.pi)          # C0 * 2 * pi == 1.0 exactly in binary64 (checked in extra_checks)
+TWO_PI = 2 * math.pi
+
+
+def arg_vals(a):
+    return [dec(a["num"])] if "num" in a else [dec(x) for x in a["strm"]]
+
+
+def gen_arg(rng, mk, n, p_stream=0.4, kinds=("list", "iter", "Stream", "tuple")):
+    """a modulo_counter-style argument: number or stream of mk() values"""
+    if rng.random() < p_stream:
+        xs = [mk() for _ in range(rng.choice([n, n + 2, max(1, n - 3)]))]
+        if rng.random() < 0.3:
+            xs = [xs[0]] * len(xs)
+        return {"strm": [enc(x) for x in xs], "ts": [typ_for(x, rng) for x in xs],
+                "kind": rng.choice(kinds)}
+    x = mk()
+    return {"num": enc(x), "t": typ_for(x, rng)}
+
+
+def float_arg(rng, lo, hi, n, p_stream=0.4, kinds=("list", "iter", "Stream", "tuple")):
+    mk = lambda: F(rng.uniform(lo, hi))
+    a = gen_arg(rng, mk, n, p_stream, kinds)
+    if "num" in a:
+        a["t"] = "f"
+    else:
+        a["ts"] = ["f"] * len(a["strm"])
+    return a
+
+
+def gen_table(rng, tier, scale):
+    cases = []
+    k = (220 if tier == "quick" else 5000) * scale
+    for _ in range(k):
+        L = rng.choice([1, 2, 3, 4, 5, 7, 8, 16, rng.randint(1, 64)])
+        tbl = [dyadic(rng) for _ in range(L)]
+        tts = [typ_for(x, rng) for x in tbl]
+        n = rng.choice([1, 4, 9, 17, 30])
+        exact = rng.random() < 0.7
+        if exact:
+            kk = rng.randint(-2, 3)
+            cycles = {"c0exp": kk}
+            mk = lambda: F(rng.randint(-48, 48), rng.choice([1, 2, 4, 8, 16]))
+            # freq / phase are "numbers or Streams" (they get multiplied by a float)
+            freq, phase = gen_arg(rng, mk, n, 0.4, ("Stream",)), gen_arg(rng, mk, n, 0.25, ("Stream",))
+        else:
+            cycles = {"v": enc(F(rng.choice([1, 1, 2, 3, 0.5, 0.7]))), "t": "f"}
+            if cycles["v"] in (1, 2, 3) and rng.random() < 0.5:
+                cycles["t"] = "i"
+            freq, phase = float_arg(rng, -3, 3, n, 0.4, ("Stream",)), float_arg(rng, -7, 7, n, 0.25, ("Stream",))
+        cases.append({"entry": "table_call", "table": [enc(x) for x in tbl], "tts": tts, "cycles": cycles,
+                      "freq": freq, "phase": phase, "n": n, "exact": exact,
+                      "default_phase": "num" in phase and dec(phase["num"]) == 0 and rng.random() < 0.5})
+    for _ in range(k // 2):
+        L = rng.choice([1, 2, 3, 4, 5, 8, rng.randint(1, 40)])
+        tbl = [dyadic(rng) for _ in range(L)]
+        r = rng.random()
+        if r < 0.5:
+            idx = F(rng.randint(0, 16 * L + 40), 16)
+        elif r < 0.7:
+            idx = F(rng.randint(-3 * L, 3 * L))
+        elif r < 0.8:
+            idx = F(rng.randint(-16 * L - 20, -1), 16)             # negative, mostly fractional
+        else:
+            idx = F(rng.randint(0, L) * 16 + rng.choice([0, 1, 15, 8]), 16)
+        cases.append({"entry": "table_getitem", "table": [enc(x) for x in tbl],
+                      "tts": [typ_for(x, rng) for x in tbl], "idx": num(rng, idx)})
+    return cases
+
+
+def cycles_py(cy):
+    if "c0exp" in cy:
+        return C0 * 2.0 ** cy["c0exp"]
+    return py(cy["v"], cy["t"])
+
+
+def impl_table(c):
+    from audiolazy import TableLookup
+    tbl = [py(v, t) for v, t in zip(c["table"], c["tts"])]
+    if c["entry"] == "table_getitem":
+        try:
+            return {"out": [enc(TableLookup(tbl)[pv(c["idx"])])], "end": "stop"}
+        except Exception as e:
+            return {"out": [], "end": err_kind(e)}
+    try:
+        t = TableLookup(tbl, cycles_py(c["cycles"]))
+        if c.get("default_phase"):
+            s = t(mc_build(c["freq"]))
+        else:
+            s = t(mc_build(c["freq"]), mc_build(c["phase"]))
+    except Exception as e:
+        return {"out": [], "end": err_kind(e)}
+    out, end = drain(s, c["n"])
+    return {"out": [enc(x) for x in out], "end": end}
+
+
+def strip_arg(a):
+    return {k: v for k, v in a.items() if k in ("num", "strm")}
+
+
+def req_table(c):
+    if c["entry"] == "table_getitem":
+        return {"entry": "table_getitem", "table": c["table"], "idx": c["idx"]["v"]}
+    den = cycles_py(c["cycles"]) * 2 * math.pi        # the expression of TableLookup.__call__
+    return {"entry": "table_call", "table": c["table"], "den": enc(den), "freq": strip_arg(c["freq"]),
+            "phase": strip_arg(c["phase"]), "n": c["n"]}
+
+
+def cmp_table(c, io, drv):
+    res = []
+    got = [dec(x) for x in io["out"]]
+    if c["entry"] == "table_getitem":
+        mod = [dec(drv["model"])] if drv["model"] is not None else None
+        spec = [dec(drv["spec"])]
+        if mod is None or got != mod or io["end"] != "stop":
+            res.append(("model", "TableLookup[idx]: impl=%s/%s model=%s" % (io["out"], io["end"], drv["model"])))
+        if got != spec or io["end"] != "stop":
+            res.append(("spec", "TableLookup[idx]: impl=%s/%s spec=%s (cyclic linear interpolation)" % (io["out"], io["end"], drv["spec"])))
+        return res
+    if any(x is None for x in drv["model"]):
+        return [("model", "model predicts an IndexError inside the oscillator")]
+    mod = [dec(x) for x in drv["model"]]
+    spec = [dec(x) for x in drv["spec"]]
+    exp_end = "fuel" if len(mod) == c["n"] else "stop"
+    if not same_vals(got, mod, c["exact"]) or io["end"] != exp_end:
+        res.append(("model", "TableLookup(): impl=%s/%s model=%s/%s" % (io["out"], io["end"], drv["model"], exp_end)))
+    if not same_vals(got, spec, c["exact"]) or io["end"] != exp_end:
+        res.append(("spec", "TableLookup(): impl=%s/%s spec=%s/%s" % (io["out"], io["end"], drv["spec"], exp_end)))
+    return res
+
+
+def tally_table(eng, c, io):
+    if c["entry"] == "table_getitem":
+        q = qv(c["idx"])
+        eng.count("getitem_idx", ("neg" if q < 0 else "pos") + ("-int" if q.denominator == 1 else "-frac")
+                  + ("-beyond" if abs(q) >= len(c["table"]) else ""))
+    else:
+        eng.count("table_regime", "exact" if c["exact"] else "float")
+        eng.count("table_size", min(len(c["table"]) // 8 * 8, 64))
+        eng.count("table_args", ("F" if "strm" in c["freq"] else "f") + ("P" if "strm" in c["phase"] else "p"))
+        eng.count("table_end", io["end"])
+
+
+def classify_table(c, io, drv):
+    if c["entry"] == "table_getitem":
+        q = qv(c["idx"])
+        if io["end"] != "stop":
+            return "TableLookup.getitem:" + io["end"]
+        if q < 0 and q.denominator != 1:
+            return "TableLookup.getitem:negative-fractional-index:values"
+        return "TableLookup.getitem:values"
+    if io["end"] not in ("stop", "fuel"):
+        return "TableLookup.call:" + io["end"]
+    return "TableLookup.call:values"
+
+
+def shrink_table(c):
+    tbl = c["table"]
+    if c["entry"] == "table_getitem":
+        if len(tbl) > 1:
+            yield dict(c, table=tbl[:-1], tts=c["tts"][:-1])
+        yield dict(c, table=list(range(0, 10 * len(tbl), 10)), tts=["i"] * len(tbl))
+        for x in shrink_num_fields(c, ["idx"]):
+            yield x
+        return
+    if c["n"] > 1:
+        yield dict(c, n=c["n"] - 1)
+        yield dict(c, n=c["n"] // 2)
+    if len(tbl) > 1:
+        yield dict(c, table=tbl[:-1], tts=c["tts"][:-1])
+        yield dict(c, table=list(range(0, 10 * len(tbl), 10)), tts=["i"] * len(tbl))
+    for k in ("freq", "phase"):
+        a = c[k]
+        if "strm" in a and len(a["strm"]) >= 1:
+            yield dict(c, **{k: {"num": a["strm"][0], "t": a["ts"][0]}})
+        if "num" in a and c["exact"]:
+            q = dec(a["num"])
+            for r in (F(0), F(int(q)), F(1, 2)):
+                if r != q:
+                    yield dict(c, **{k: {"num": enc(r), "t": "F"}}, default_phase=False)
+    if "c0exp" in c["cycles"] and c["cycles"]["c0exp"] != 0:
+        yield dict(c, cycles={"c0exp": 0})
+
+
+def neigh_table(c):
+    if c["entry"] == "table_getitem":
+        q = qv(c["idx"])
+        for d in (F(1), F(-1), F(1, 2), F(1, 4)):
+            if q + d >= 0:
+                yield dict(c, idx={"v": enc(q + d), "t": "F"})
+    else:
+        yield dict(c, n=c["n"] + 5)
+
+
+# --- sinusoid -----------------------------------------------------------------------------------
+def gen_sin(rng, tier, scale):
+    cases = []
+    k = (120 if tier == "quick" else 3000) * scale
+    for _ in range(k):
+        n = rng.choice([1, 5, 20, 60])
+        r = rng.random()
+        if r < 0.6:
+            freq, phase = float_arg(rng, -1, 3.3, n), float_arg(rng, -7, 7, n, 0.25)
+        elif r < 0.8:
+            mk = lambda: F(rng.randint(-40, 40), rng.choice([1, 2, 8, 64]))
+            freq, phase = gen_arg(rng, mk, n), gen_arg(rng, mk, n, 0.25)
+        else:
+            freq = {"num": enc(F(TWO_PI / rng.randint(1, 12))), "t": "f"}     # periods dividing the circle
+            phase = {"num": enc(F(rng.choice([0.0, math.pi, math.pi / 2, -math.pi]))), "t": "f"}
+        cases.append({"entry": "sinusoid", "freq": freq, "phase": phase, "n": n,
+                      "default_phase": "num" in phase and dec(phase["num"]) == 0 and rng.random() < 0.5})
+    return cases
+
+
+def impl_sin(c):
+    from audiolazy import sinusoid
+    try:
+        s = sinusoid(mc_build(c["freq"])) if c.get("default_phase") else \
+            sinusoid(mc_build(c["freq"]), mc_build(c["phase"]))
+    except Exception as e:
+        return {"out": [], "end": err_kind(e)}
+    out, end = drain(s, c["n"])
+    return {"out": [enc(x) for x in out], "end": end}
+
+
+def req_sin(c):
+    return {"entry": "sinusoid", "two_pi": enc(TWO_PI), "freq": strip_arg(c["freq"]),
+            "phase": strip_arg(c["phase"]), "n": c["n"]}
+
+
+def cmp_sin(c, io, drv):
+    res = []
+    got = [dec(x) for x in io["out"]]
+    mod = [dec(x) for x in drv["model"]]
+    spec = [dec(x) for x in drv["spec"]]
+    exp_end = "fuel" if len(mod) == c["n"] else "stop"
+    if not same_vals(got, mod, False) or io["end"] != exp_end:
+        res.append(("model", "sinusoid: impl=%s/%s model=%s/%s" % ([float(x) for x in got], io["end"], [float(x) for x in mod], exp_end)))
+    if not same_vals(got, spec, False) or io["end"] != exp_end:
+        res.append(("spec", "sinusoid: impl=%s/%s sin(phase+n*freq)=%s/%s" % ([float(x) for x in got], io["end"], [float(x) for x in spec], exp_end)))
+    return res
+
+
+def tally_sin(eng, c, io):
+    eng.count("sin_args", ("F" if "strm" in c["freq"] else "f") + ("P" if "strm" in c["phase"] else "p"))
+    if "num" in c["freq"] and "num" in c["phase"]:
+        f = dec(c["freq"]["num"])
+        eng.count("sin_path", "step0" if f == 0 else ("fast" if int(F(TWO_PI) / f) > 1 else "plain"))
+
+
+def shrink_sin(c):
+    if c["n"] > 1:
+        yield dict(c, n=c["n"] - 1)
+        yield dict(c, n=c["n"] // 2)
+    for k in ("freq", "phase"):
+        a = c[k]
+        if "strm" in a and a["strm"]:
+            yield dict(c, **{k: {"num": a["strm"][0], "t": a["ts"][0]}})
+        if "num" in a:
+            q = dec(a["num"])
+            for r in (F(0), F(1), F(int(q))):
+                if r != q:
+                    yield dict(c, **{k: {"num": enc(r), "t": "f"}}, default_phase=False)
+
+
+# --- karplus_strong -----------------------------------------------------------------------------
+def exact_freq_for(delay):
+    """a float freq with 2*pi/freq == delay exactly, or None"""
+    f0 = TWO_PI / delay
+    for k in range(-3, 4):
+        f = f0
+        for _ in range(abs(k)):
+            f = math.nextafter(f, math.inf if k > 0 else -math.inf)
+        if TWO_PI / f == delay:
+            return f
+    return None
+
+
+def gen_ks(rng, tier, scale):
+    cases = []
+    k = (100 if tier == "quick" else 2500) * scale
+    for _ in range(k):
+        n = rng.choice([1, 5, 12, 30, 50])
+        if rng.random() < 0.6:
+            delay = float(F(rng.randint(8, 96), rng.choice([1, 2, 4]))) if rng.random() < 0.8 else float(rng.randint(2, 20))
+            freq = exact_freq_for(delay)
+            if freq is None:
+                continue
+            tau = "inf"
+        else:
+            freq = rng.uniform(0.05, math.pi)
+            tau = enc(F(rng.choice([2e4, 50.0, 7.5, rng.uniform(1, 1000)])))
+        delay = TWO_PI / freq
+        lm = math.ceil(delay)
+        ml = rng.choice([lm, lm, lm + 3, max(0, lm - 2), rng.randint(0, lm + 2)])
+        mem = [F(rng.randint(-16, 16), 16) for _ in range(ml)]
+        cases.append({"entry": "karplus", "freq": enc(F(freq)), "tau": tau, "memory": [enc(x) for x in mem],
+                      "mem_kind": rng.choice(["list", "iter", "callable", "Stream"]), "n": n})
+    return cases
+
+
+def ks_params(c):
+    """delay and alpha exactly as karplus_strong / comb.tau compute them"""
+    freq = float(dec(c["freq"]))
+    tau = INF if c["tau"] == "inf" else float(dec(c["tau"]))
+    delay = 2 * math.pi / freq
+    alpha = math.e ** (-delay / tau)
+    return freq, tau, delay, alpha
+
+
+def impl_ks(c):
+    from audiolazy import karplus_strong, Stream
+    freq, tau, delay, alpha = ks_params(c)
+    mem = [float(dec(x)) for x in c["memory"]]
+    mk = c["mem_kind"]
+    memory = mem if mk == "list" else iter(mem) if mk == "iter" else Stream(mem) if mk == "Stream" else \
+        (lambda size: mem)
+    try:
+        s = karplus_strong(freq, tau, memory=memory)
+    except Exception as e:
+        return {"out": [], "end": err_kind(e)}
+    out, end = drain(s, c["n"])
+    return {"out": [enc(x) for x in out], "end": end}
+
+
+def req_ks(c):
+    freq, tau, delay, alpha = ks_params(c)
+    return {"entry": "karplus", "alpha": enc(alpha), "delay": enc(delay), "memory": c["memory"], "n": c["n"]}
+
+
+def cmp_ks(c, io, drv):
+    res = []
+    got = [dec(x) for x in io["out"]]
+    mod = [dec(x) for x in drv["model"]]
+    spec = [dec(x) for x in drv["spec"]]
+    exact = c["tau"] == "inf"
+    if not same_vals(got, mod, exact) or io["end"] != "fuel":
+        res.append(("model", "karplus_strong: impl=%s/%s model=%s" % (io["out"], io["end"], drv["model"])))
+    if not same_vals(got, spec, exact) or io["end"] != "fuel":
+        res.append(("spec", "karplus_strong: impl=%s/%s spec=%s" % (io["out"], io["end"], drv["spec"])))
+    return res
+
+
+def tally_ks(eng, c, io):
+    freq, tau, delay, alpha = ks_params(c)
+    eng.count("ks_regime", "exact" if c["tau"] == "inf" else "float")
+    eng.count("ks_delay", "integer" if delay.is_integer() else "fractional")
+    lm = math.ceil(delay)
+    ml = len(c["memory"])
+    eng.count("ks_memory", "short" if ml < lm else ("exact" if ml == lm else "long"))
+
+
+def shrink_ks(c):
+    if c["n"] > 1:
+        yield dict(c, n=c["n"] - 1)
+        yield dict(c, n=c["n"] // 2)
+    if c["mem_kind"] != "list":
+        yield dict(c, mem_kind="list")
+    m = c["memory"]
+    if m:
+        yield dict(c, memory=m[:-1])
+        yield dict(c, memory=[0] * (len(m) - 1) + [1])
+        yield dict(c, memory=[1] + [0] * (len(m) - 1))
+
+
+# ----------------------------------------------------------------------------------------------
 # dispatch
 # ----------------------------------------------------------------------------------------------
 ENTRIES = {
@@ -685,8 +1053,13 @@ ENTRIES = {
                  neigh=neigh_const, classify=classify_const, request=req_const),
     "adsr": dict(gen=gen_adsr, impl=impl_adsr, cmp=cmp_adsr, tally=tally_adsr, shrink=shrink_adsr,
                  neigh=neigh_adsr, classify=classify_adsr, request=req_adsr),
+    "table_call": dict(gen=gen_table, impl=impl_table, cmp=cmp_table, tally=tally_table, shrink=shrink_table,
+                       neigh=neigh_table, classify=classify_table, request=req_table),
+    "sinusoid": dict(gen=gen_sin, impl=impl_sin, cmp=cmp_sin, tally=tally_sin, shrink=shrink_sin,
+                     request=req_sin),
+    "karplus": dict(gen=gen_ks, impl=impl_ks, cmp=cmp_ks, tally=tally_ks, shrink=shrink_ks, request=req_ks),
 }
-for _alias, _of in (("fadein", "line"), ("fadeout", "line"), ("zeros", "ones"), ("zeroes", "ones"),
+for _alias, _of in (("table_getitem", "table_call"), ("fadein", "line"), ("fadeout", "line"), ("zeros", "ones"), ("zeroes", "ones"),
                     ("impulse", "ones"), ("attack", "adsr")):
     ENTRIES[_alias] = dict(ENTRIES[_of], gen=None)
 
